@@ -9,12 +9,13 @@ import Driver.Router
 import Driver.Promise
 import Driver.Queue
 import Driver.PromiseMT
+import Driver.Emit
 
 open Drv
 
 def dispatch (line : String) : String :=
   let ws := words line
-  let ops : List (List String → Option String) := [base64Op, mimeOp, netOp, headersOp, cookieOp, parserOp, routerOp, promiseOp, queueOp, promiseMTOp]
+  let ops : List (List String → Option String) := [base64Op, mimeOp, netOp, headersOp, cookieOp, parserOp, routerOp, promiseOp, queueOp, promiseMTOp, emitOp]
   match ops.findSome? (fun f => f ws) with
   | some r => r
   | none => "bad-op"
